@@ -54,15 +54,18 @@ class SWorld(CWorld):
             body = [a for a in self.facts.asts('NodeSorter::NodeSortKeyCompare::operator()', must=False) if a.get('body') is not None]
             if len(body) != 1:
                 raise Unsupported('NodeSortKeyCompare::operator(): %d bodies' % len(body))
-            items = b.vec.items[b.i:e.i]
-            out = []
-            for x in items:                     # insertion sort, stable: x goes after every element it is not less than
-                pos = len(out)
-                while pos > 0 and (m.run_body(body[0], [x, out[pos - 1], 0][:len(body[0]['params'])], comp) or
-                                   (unstable and not m.run_body(body[0], [out[pos - 1], x, 0][:len(body[0]['params'])], comp))):
-                    pos -= 1
-                out.insert(pos, x)
-            b.vec.items[b.i:e.i] = out
+            # insertion sort IN PLACE, the way libstdc++ sorts short ranges (std::__insertion_sort: the value is taken out, larger elements are moved up one by one):
+            # while the comparator runs the vector is partly permuted, as it is in the real sort.  Stable: x goes after every element it is not less than
+            v = b.vec.items
+            np_ = len(body[0]['params'])
+            for i in range(b.i + 1, e.i):
+                x = v[i]
+                j = i
+                while j > b.i and (m.run_body(body[0], [x, v[j - 1], 0][:np_], comp) or
+                                   (unstable and not m.run_body(body[0], [v[j - 1], x, 0][:np_], comp))):
+                    v[j] = v[j - 1]
+                    j -= 1
+                v[j] = x
             return 0
         if k == 'MCall':
             tgt = m.target_obj(c)
